@@ -7,6 +7,10 @@ ONL0 = "old(len(self.state.nlive))"
 # ---------------------------------------------------------------- LiveInv
 # The class invariant of the standard sampler between iterations.
 LIVE_INV = [
+    # while the run is in progress the evidence is the running rectangle sum
+    # (the trapezoidal refinement belongs to finalise): C05 -- a run cut
+    # short reports the estimator its returned samples give
+    "not self.state.ghost_refined",
     "self.nlive >= 1",
     "self.live_points is not None",
     "len(self.live_points) == self.nlive",
@@ -249,6 +253,7 @@ contract(
     loops={
         0: {"index": "k",
             "inv": ev_inv("self.state") + [
+                "not self.state.ghost_refined",
                 "len(self.nested_samples) == old(len(self.nested_samples)) + k",
                 "len(self.state.logLs) == old(len(self.state.logLs)) + k",
                 "len(self.state.nlive) == old(len(self.state.nlive)) + k",
